@@ -4,4 +4,16 @@ EXTENDS EngineConc
 DepsDef == <<  <<>>, <<1>>, <<2, 1>>, <<3, 2>>  >>
 Roots3 == <<4, 3, 4>>
 Roots2 == <<4, 3>>
+\* cyclic programs (C06)
+\* ring of two behind a leaf read, a consumer of member 1: 1 reads <<4, 2>>, 2 reads <<1>>, 3 reads <<1>>, 4 nothing
+DepsR2 == <<  <<4, 2>>, <<1>>, <<1>>, <<>>  >>
+RootsR2 == <<1, 2, 3>>
+RootsR2b == <<1, 2>>
+\* ring of three, entered at every member: 1 -> 2 -> 3 -> 1; 4 reads member 2 and is read by nobody
+DepsR3 == <<  <<2>>, <<3>>, <<1>>, <<2>>  >>
+RootsR3 == <<1, 2, 3>>
+RootsR3b == <<1, 3>>
+\* self-loop behind a chain, and a second ring sharing nothing: 1 -> 1; 2 -> 1; 3 <-> 4
+DepsSL == <<  <<1>>, <<1>>, <<2, 4>>, <<3>>  >>
+RootsSL == <<2, 3, 4>>
 =============================================================================
